@@ -332,6 +332,28 @@ def _job(args):
             if var_keys == base_keys:
                 return (kind, name, 'ok', 'same verdict ({} finding keys)'.format(len(base_keys)))
             return (kind, name, 'MISMATCH', 'benign edit changed the verdict: +{} -{}'.format(sorted(var_keys - base_keys)[:3], sorted(base_keys - var_keys)[:3]))
+        if kind == 'bseeded':
+            # a confirmed behaviour-preserving change made by a sub-agent (benign_seeded/<id>): the verdict must not change
+            sd = payload
+            tmp = tempfile.mkdtemp(prefix='sa_bseed_')
+            try:
+                shutil.copytree(os.path.join(Tree().root, 'src'), os.path.join(tmp, 'src'), ignore=shutil.ignore_patterns('__pycache__', '*.egg-info'))
+                res = subprocess.run(['git', 'apply', os.path.join(sd, 'patch.diff')], cwd=tmp, capture_output=True, text=True)
+                if res.returncode:
+                    return (kind, name, 'skipped', 'patch does not apply to the current tree')
+                base_keys = _keys(_decide(prop), known)
+                chk = _decide(prop, None, tmp)
+                var_keys = _keys(chk, known)
+                errs = [ob.oid for ob in chk.obligations if ob.error]
+                # an obligation that gives up (exit 2, INCONCLUSIVE) is not an alarm; a finding that HEAD does not have is
+                new = {k for k in var_keys - base_keys if not k.startswith('ERROR:')}
+                if new:
+                    return (kind, name, 'MISMATCH', 'false alarm on a behaviour-preserving change: ' + ', '.join(sorted(new))[:200])
+                if errs:
+                    return (kind, name, 'ok', 'no alarm on the behaviour-preserving change (inconclusive: ' + ', '.join(errs) + ')')
+                return (kind, name, 'ok', 'silent on the behaviour-preserving change')
+            finally:
+                shutil.rmtree(tmp, ignore_errors=True)
         if kind == 'seeded':
             sd = payload
             meta = json.load(open(os.path.join(sd, 'meta.json')))
@@ -345,6 +367,13 @@ def _job(args):
                 hits = [f for ob in chk.obligations for f in ob.findings if f.key not in known]
                 if meta.get('status') == 'retired':
                     return (kind, name, 'skipped', 'retired seed (no longer demonstrated on the repaired tree)')
+                if meta.get('status') == 'withheld':
+                    gated = [ob.oid for ob in chk.obligations if ob.error]
+                    if hits:
+                        return (kind, name, 'ok', 'caught by ' + ', '.join(sorted({f.obligation for f in hits})))
+                    if gated:
+                        return (kind, name, 'ok', 'not decided on this restructured tree, INCONCLUSIVE (exit 2) as recorded (' + ', '.join(gated) + ')')
+                    return (kind, name, 'MISMATCH', 'withheld seed is neither reported nor inconclusive')
                 if meta.get('status') == 'neutralised':
                     if hits:
                         return (kind, name, 'MISMATCH', 'neutralised seed raises an alarm: ' + hits[0].key)
@@ -371,6 +400,9 @@ def run(prop, tree):
         jobs.append(('benign', prop, 'benign-{}'.format(ix), payload))
     for sd in sorted(glob.glob(os.path.join(VERIF, 'seeded', prop + '-*'))):
         jobs.append(('seeded', prop, 'seeded-' + os.path.basename(sd), sd))
+    # behaviour-preserving changes are judged by every property's check, not only the one they were written for
+    for sd in sorted(glob.glob(os.path.join(VERIF, 'benign_seeded', 'C*'))):
+        jobs.append(('bseeded', prop, 'benign-' + os.path.basename(sd), sd))
     workers = min(16, max(1, len(jobs)))
     with ProcessPoolExecutor(max_workers=workers) as ex:
         results = list(ex.map(_job, jobs))
